@@ -11,6 +11,7 @@ from engine import sqfprog
 
 ID = "C02"
 LEVEL = "exploration"
+HANG_IS_VIOLATION = True     # every generated case terminates under the model: no reply (twice, then 3x confirmation) is a violation
 ENGINE = "E-hyp"
 TECHNIQUE = "property-based testing: grammar-generated programs executed by the VM and by a Python reference interpreter; trace and construct values compared"
 RULE = ("cases = structured programs (Hypothesis composite, depth<=4/5) nesting if/then/else, exitWith, while, for-from-to-step, forEach, "
